@@ -128,6 +128,19 @@ def template(tid):
         v = f.createVariable('x', 'd', ('x',))
         v[...] = [1, 2, 3]
         f.setCoords(['x'])
+    elif tid == 'T8':
+        # time flags without a time variable; the date -635 means "time
+        # independent" and is decoded as 1970001
+        f.createDimension('TSTEP', 3).setunlimited(True)
+        f.createDimension('VAR', 1)
+        f.createDimension('DATE-TIME', 2)
+        f.createDimension('x', 2)
+        v = f.createVariable('TFLAG', 'i', ('TSTEP', 'VAR', 'DATE-TIME'))
+        v[...] = [[[-635, 0]], [[-635, 10000]], [[2001001, 0]]]
+        v.units = '<YYYYDDD,HHMMSS>'
+        v = f.createVariable('S', 'f', ('TSTEP', 'x'))
+        v[...] = _tok((3, 2), 800, 'f')
+        f.TSTEP = 10000
     elif tid == 'T7':
         # a genuinely four-dimensional variable (zipped selections on
         # non-adjacent axes, multi-axis reductions)
@@ -233,6 +246,16 @@ def _drop_history(src, res):
     return res
 
 
+_TAILS = {}
+
+
+def _tail_list(objs, ids, others):
+    ent = _TAILS.get('cur')
+    if ent is None or ent[0] is not objs:
+        ent = _TAILS['cur'] = (objs, {})
+    return ent[1].setdefault(tuple(ids), others)
+
+
 def call(objs, st, tmp):
     """Execute one step; returns the new object or None (queries)."""
     act, a = st['act'], st.get('args', {})
@@ -279,8 +302,13 @@ def call(objs, st, tmp):
             # the module-level entry point (used by the command line tools)
             from PseudoNetCDF.core._functions import stack_files
             return stack_files([f] + list(others), a['dim'])
-        return f.stack(others if len(others) != 1 or a.get('aslist')
-                       else others[0], a['dim'])
+        if len(others) != 1 or a.get('aslist'):
+            # a caller that stacks the same tail onto several heads passes the
+            # same list object every time: one list per distinct tail, kept
+            # for the whole program
+            others = _tail_list(objs, st.get('others', []), others)
+            return f.stack(others, a['dim'])
+        return f.stack(others[0], a['dim'])
     if act == 'subset':
         return f.subsetVariables(list(a['keys']), exclude=a['exclude'])
     if act == 'renamevar':
@@ -771,7 +799,7 @@ def run_isolation(out, tier):
     rnd = random.Random(seed() * 7919 + 5)
     n = 500 if tier == 'quick' else 5000
     progs = [gen_program(rnd, rnd.choice([2, 3, 4]), isolation=True,
-                         templates=TEMPLATES + ['T6'])
+                         templates=TEMPLATES + ['T6', 'T8'])
              for _ in range(n)]
     # mask(invalid=True) in a share of the mask steps (outside the value
     # model; the isolation clause does not need the expected result)
